@@ -154,7 +154,7 @@ def apply_chunk(args):
         except core.MachineryFailure:
             raise
         except Exception as e:       # harness error on a library object: report, never exit 2 for library faults
-            bad = ("apply.harness_exception", "%s: %s" % (type(e).__name__, e))
+            bad = ("apply.raised", "%s: %s" % (type(e).__name__, e))
         if bad and len(viol) < 10:
             viol.append((dict(cls=cls, dim=dim, sx=list(sx), st=list(st), mode=mode, variant=variant), bad))
         if sample is None and len(sx) == 2 and len(st) == 1 and mode == "pairwise" and cls == "HPolygon":
@@ -261,7 +261,12 @@ def shape_chunk(args):
     n = 0
     viol = []
     for (cls, dim, sx) in cases:
-        k, bad = shape_ops_case(cls, dim, sx, seed)
+        try:
+            k, bad = shape_ops_case(cls, dim, sx, seed)
+        except core.MachineryFailure:
+            raise
+        except Exception as e:      # the library raised while the operand was being constructed
+            k, bad = 1, ("shape_ops.raised", "%s: %s" % (type(e).__name__, e))
         n += k
         if bad and len(viol) < 10:
             viol.append((dict(cls=cls, dim=dim, sx=list(sx)), bad))
@@ -580,7 +585,7 @@ def query_chunk(args):
         except core.MachineryFailure:
             raise
         except Exception as e:
-            bad = ("query.harness_exception", "%s: %s" % (type(e).__name__, e))
+            bad = ("raised", "%s: %s" % (type(e).__name__, e))
         per[c[0]] = per.get(c[0], 0) + 1
         if bad and len(viol) < 10:
             viol.append((dict(op=c[0], dim=c[1], sx=list(c[2]), sy=None if c[3] is None else list(c[3])), bad))
